@@ -277,6 +277,7 @@ void MEDDLY::prepost_set_mtrel<EOP, ATYPE>::_compute(int L,
         // Treat that case quickly.
         //
         ATYPE::apply(arg1F, av, A, arg2F, B, resF, cv, C);
+        C = resF->makeRedundantsTo(C, Alevel, L);
         return;
     }
 
